@@ -26,7 +26,8 @@ ASSUMPTIONS = ['-D is driven by a scripted stdin answering "c"',
                'sys.modules) is not compared']
 FLOORS = {'snapshots_compared': 1500, 'effective_option_cases': 1000,
           'aborted_runs': 500, 'kbint_runs': 300, 'option_effect_probes': 1400,
-          'warnoptions_cases': 200}
+          'warnoptions_cases': 200,
+          'application_traceback_functions': 200}
 BATCH_TIMEOUT = 600
 
 OPTS = ['gc', 'gcopt', 'coverage', 'profile', 'buffer', 'warnings', 'pm']
@@ -247,7 +248,24 @@ def run_case(case):
     if rng.random() < 0.3:
         pre_thr = rng.choice([(650, 9, 8), (1000, 20, 20), (123, 10, 10)])
 
+    # ... and the embedding program may have its own traceback formatting
+    # functions in place (installed after zope.testrunner was imported)
+    pre_tb = rng.random() < 0.25
+    saved_tb = []
+
     def pre():
+        if pre_tb:
+            import traceback
+            ofe, ope = traceback.format_exception, traceback.print_exception
+            saved_tb.append((ofe, ope))
+
+            def app_format_exception(*a, **k):
+                return ofe(*a, **k)
+
+            def app_print_exception(*a, **k):
+                return ope(*a, **k)
+            traceback.format_exception = app_format_exception
+            traceback.print_exception = app_print_exception
         if pre_debug is not None:
             gc.set_debug(pre_debug)
         if pre_thr is not None:
@@ -284,12 +302,18 @@ def run_case(case):
         _warnings.filters[:] = saved_filters
         if hasattr(_warnings, '_filters_mutated'):
             _warnings._filters_mutated()
+        if saved_tb:
+            import traceback
+            traceback.format_exception, traceback.print_exception = \
+                saved_tb[0]
         restore_state(before)
         gc.set_threshold(*orig_gc[0])
         gc.set_debug(orig_gc[1])
         del gc.garbage[gc_garbage_before:]
         vworld.destroy(scratch)
     C('snapshots_compared')
+    if pre_tb:
+        C('application_traceback_functions')
     if pre_debug is not None or pre_thr is not None:
         C('non_default_initial_state')
         if pre_debug is not None and 'gcopt' in effects and any(
